@@ -21,6 +21,13 @@ type Reg struct {
 	Name  string        `json:"name,omitempty"`
 	Group string        `json:"group,omitempty"`
 	As    []string      `json:"as,omitempty"`
+	// Remove steps: Collection.Remove(RmType) / RemoveKeyed(RmType, RmKey)
+	Remove bool   `json:"remove,omitempty"`
+	RmType string `json:"rm_type,omitempty"`
+	RmKey  string `json:"rm_key,omitempty"`
+	// Tail steps keep their position at the end of the spec (Remove and re-Add steps are
+	// order-sensitive by nature; C06 permutes only the prefix).
+	Tail bool `json:"tail,omitempty"`
 }
 
 // Spec is an ordered list of registrations.
@@ -43,6 +50,12 @@ func lifeName(l godi.Lifetime) string {
 // String renders one registration.
 func (r Reg) String() string {
 	var sb strings.Builder
+	if r.Remove {
+		if r.RmKey != "" {
+			return fmt.Sprintf("RemoveKeyed(%s,%q)", r.RmType, r.RmKey)
+		}
+		return "Remove(" + r.RmType + ")"
+	}
 	sb.WriteString("Add")
 	sb.WriteString(strings.Title(lifeName(r.Life)))
 	sb.WriteString("(")
@@ -121,22 +134,32 @@ func (s *Spec) Lines() []string {
 func (s *Spec) Canon() string {
 	var plain []string
 	for _, r := range s.Regs {
-		if r.Group == "" {
+		if r.Group == "" && !r.Tail {
 			plain = append(plain, r.String())
 		}
 	}
 	sort.Strings(plain)
-	var grouped []string
+	var grouped, tail []string
 	for _, r := range s.Regs {
-		if r.Group != "" {
+		if r.Tail {
+			tail = append(tail, r.String())
+		} else if r.Group != "" {
 			grouped = append(grouped, r.String())
 		}
 	}
-	return strings.Join(plain, ";") + "|" + strings.Join(grouped, ";")
+	return strings.Join(plain, ";") + "|" + strings.Join(grouped, ";") + "|" + strings.Join(tail, ";")
 }
 
 // AddTo applies registration i to a collection.
 func (r Reg) AddTo(c godi.Collection) error {
+	if r.Remove {
+		if r.RmKey != "" {
+			c.RemoveKeyed(pool.T(r.RmType), r.RmKey)
+		} else {
+			c.Remove(pool.T(r.RmType))
+		}
+		return nil
+	}
 	var opts []godi.AddOption
 	if r.Name != "" {
 		opts = append(opts, godi.Name(r.Name))
